@@ -795,17 +795,18 @@ func (s *Stage) cleanWaiting() {
 		if len(loop) == 0 {
 			continue
 		}
-		for _, waitFile := range s.fromWait(prevPath) {
-			s.logInfo("Removing wait loop:", waitFile.name, "<-", waitFile.prev)
-			f := s.fromCache(waitFile.path)
-			if f != nil && f.state == stateValidated {
-				if f.wait != nil {
-					f.wait.Stop()
-					f.wait = nil
-				}
-				f.prev = ""
-				go s.finalizeQueue(f)
+		// The predecessor waits - through the files that wait on it - on itself.
+		// The order is given up for it alone: whatever waits on it, on the cycle
+		// or merely behind one of its members, follows when it is delivered
+		f := s.fromCache(prevPath)
+		if f != nil && f.state == stateValidated {
+			s.logInfo("Removing wait loop:", f.name, "<-", f.prev)
+			if f.wait != nil {
+				f.wait.Stop()
+				f.wait = nil
 			}
+			f.prev = ""
+			go s.finalizeQueue(f)
 		}
 	}
 }
